@@ -48,8 +48,14 @@ func perturbArgs(r *rng.R, args []cty.Value) ([]cty.Value, string) {
 			out[i] = gv.Weaken(r, out[i], 40, false)
 			kind = "unknown-deep"
 		case 6:
-			out[i] = cty.NullVal(cty.DynamicPseudoType)
-			kind = "null-dynamic"
+			if t := out[i].Type(); !t.IsPrimitiveType() && !t.IsCapsuleType() && t != cty.DynamicPseudoType && r.Bool() {
+				// an unknown whose type constraint has placeholders inside (set(dynamic), list(object({a=dynamic})), ...)
+				out[i] = cty.UnknownVal(gv.GeneraliseType(r, t, 70))
+				kind = "unknown-partly-typed"
+			} else {
+				out[i] = cty.NullVal(cty.DynamicPseudoType)
+				kind = "null-dynamic"
+			}
 		default: // an unknown that says a lot about itself: exact length, prefix, bounds
 			t := out[i].Type()
 			recovered(func() {
